@@ -164,6 +164,9 @@ def check_C06(tier, seed):
         _tw_mc(c, tier, [("TimeWarpMC_m1.tla", "TimeWarpMC_m1.cfg", "m1 (2 LPs: cancel before extraction / after processing / while re-queued)", 2),
                          ("TimeWarpMC_m2.tla", "TimeWarpMC_m2_k2.cfg", "m2 (3 LPs, cascade of depth 2)", 2)] +
                ([("TimeWarpMC_m2.tla", "TimeWarpMC_m2_k1.cfg", "m2", 1), ("TimeWarpMC_m2.tla", "TimeWarpMC_m2_k3.cfg", "m2", 3)] if tier == "thorough" else []))
+        # the real code on the same micro-models, under many schedules (distinct interleavings of the shared accesses)
+        c.micro_phase("m1", 64 if tier == "quick" else 3000)
+        c.micro_phase("m2", 64 if tier == "quick" else 3000)
         fams = ["fanout", "chain", "mixed", "fanout", "zerodelay", "chain", "ties"]
         c.run(_models(tier, seed, fams, 7, 30), 5 if tier == "quick" else 12, emphasis=em)
         c.run(_models(tier, seed + 50, fams, 3, 15), 6 if tier == "quick" else 14, emphasis=DIST_EM)
